@@ -275,6 +275,14 @@ fn build_stream(case: &CaseSpec, feats: LazyParser) -> LocalBoxStream<'static, I
     let cfg = &case.cfg;
     let cli = runner_cli(cfg);
     let r = base_runner(cfg);
+    // a third of the runs use a clone of the configured runner (the original is dropped)
+    let r = if case.sched_seed % 3 == 0 {
+        let copy = r.clone();
+        drop(r);
+        copy
+    } else {
+        r
+    };
     match (cfg.custom_which, cfg.before_hook, cfg.after_hook) {
         (false, false, false) => start(r, feats, cli),
         (false, true, false) => start(r.before(world::before_hook), feats, cli),
@@ -359,6 +367,8 @@ pub struct RunOutput {
     pub busy_idle_polls: u64,
     /// Extra gates released together with another one at the same quiescent point.
     pub multi_releases: u64,
+    /// Log lines the harness emitted outside of any scenario span.
+    pub outside_logs: u64,
 }
 
 impl RunOutput {
@@ -383,6 +393,7 @@ impl RunOutput {
             parked: 0,
             busy_idle_polls: 0,
             multi_releases: 0,
+            outside_logs: 0,
         }
     }
 }
@@ -438,6 +449,7 @@ pub fn drive(
         parked: 0,
         busy_idle_polls: 0,
         multi_releases: 0,
+        outside_logs: 0,
     };
     let t0 = Instant::now();
     let mut streak: u64 = 0;
@@ -537,6 +549,19 @@ pub fn drive(
                     let owner = world::fire_deferred();
                     qp.decision.push_str(&format!("deferred:{owner:?}"));
                     out.sched_hash = mix(out.sched_hash, 0xDEF);
+                    with_rs(|rs| rs.q += 1);
+                    out.qpoints.push(qp);
+                    streak = 0;
+                    continue;
+                }
+                // a log line emitted outside of any scenario span (as another thread or a detached
+                // task of the test binary would): the collector hands it to every running scenario
+                #[cfg(feature = "tracing")]
+                if with_rs(|rs| rs.emit_logs) && out.outside_logs < 6 && (!blocked.is_empty() || parser_waiting) && rng.chance(1, 10) {
+                    out.outside_logs += 1;
+                    tracing::info!("OUT:{}", out.outside_logs);
+                    qp.decision.push_str("outside-log");
+                    out.sched_hash = mix(out.sched_hash, 0x0D7);
                     with_rs(|rs| rs.q += 1);
                     out.qpoints.push(qp);
                     streak = 0;
